@@ -179,6 +179,11 @@ impl ConcurrentStatsCounter {
     }
 }
 
+#[cfg(cached_verif)]
+impl ConcurrentStatsCounter {
+    pub(crate) fn verif_counters(&self) -> Vec<u64> { StatsType::VALUES.iter().map(|stats_type| self.get(stats_type)).collect() }
+}
+
 #[cfg(test)]
 mod tests {
     use std::collections::HashMap;
